@@ -229,6 +229,9 @@ def ledger_survives_prepare_rule(ctx: Ctx, rid: str):
 
 
 def run_extra(ctx: Ctx):
+    # ---------------------------------------------------------------- R12.7 nothing of an earlier text is in the objects a text is read with
+    from .c15 import per_text_objects_rule
+    per_text_objects_rule(ctx, "R12.7")
     # ---------------------------------------------------------------- R12.6 answers never come from state that outlives the question
     from .common import process_state_rule
     process_state_rule(ctx, "R12.6", [ctx.repo.func("Project.schedule"), ctx.repo.func("ProjectFileParser.parse")],
